@@ -486,12 +486,23 @@ def gen_arrays(rng, tier, codecs=None):
     # run lengths straddling the tagged-length boundaries, as first, interior and last run
     for c in ("rle", "rleh"):
         if c in codecs:
-            for L in [239, 240, 241, 242, 2287, 2288, 2289] + ([67823, 67824] if tier != "quick" else []):
+            for L in [239, 240, 241, 242, 2287, 2288, 2289, 67823, 67824, 67825]:
                 v = rng.choice([0, 7, 240, 241, M64])
                 ops.append(f"{c}.rt @c:1:{hx(L)}:{hx(v)}:0")
                 ops.append(f"{c}.rt {explicit([1, 2, 3] + [v] * L)}")
                 ops.append(f"{c}.rt {explicit([v] * L + [5, 5, 6])}")
                 ops.append(f"{c}.rt {explicit([4] + [v] * L + [9] * 3)}")
+    # very long runs (streaming / splitting thresholds live at powers of two): 2^k - 1, 2^k, 2^k + 1, 2^k + 2 for
+    # k = 16, 17 (thorough: up to 20), starting at an even and at an odd element index, as interior and as last run
+    for c in ("rle", "rleh"):
+        if c in codecs:
+            for k in ([16, 17] if tier == "quick" else [12, 16, 17, 18, 20]):
+                for d in (-1, 0, 1, 2):
+                    L = (1 << k) + d
+                    v = rng.choice([0, 7, M64])
+                    lead = rng.choice([[3], [3, 4], [3, 4, 5]])
+                    ops.append(f"{c}.rt {explicit(lead + [v] * L)}")
+                    ops.append(f"{c}.rt {explicit(lead[:1] + [v] * L + [9, 9, 8])}")
     # dictionary cardinalities straddling the index-width boundaries (exactly k distinct values)
     if "dict" in codecs:
         ks = [1, 2, 255, 256, 257, 65535, 65536, 65537]
@@ -951,6 +962,24 @@ def gen_adaptive(rng, tier, slice_only=False):
             ops.append(f"adaptive.rt @r:{hx(rng.getrandbits(60))}:{hx(n)}:0:{hx(rng.choice([M64, 1 << 60, 1 << 33]))}")
             # periodic data that misleads the sampler above 10000 elements
             ops.append(f"adaptive.rt @p:{hx(rng.getrandbits(60))}:{hx(n)}:{hx(rng.choice([0, 1 << 56]))}:{hx(rng.choice([1 << 62, 1 << 40, 1600]))}")
+    # dense ascending arrays below 65536 with exactly ONE descent, placed at round indices and their neighbours (a
+    # sortedness scan that is blocked / unrolled / restarted misses the pair at a block seam)
+    seams = set()
+    for base in (8, 16, 32, 64, 100, 128, 256, 500, 512, 1000, 1024, 2000, 2048, 3000, 4096, 5000, 8192):
+        for k in (1, 2, 3):
+            for d in (-1, 0, 1):
+                seams.add(base * k + d)
+    seams = sorted(p for p in seams if 2 <= p < 9000)
+    if tier == "quick":
+        seams = [p for p in seams if p < 4200]
+    for p in seams:
+        n = p + rng.choice([1, 2, 40])
+        vals = [3 + 2 * i for i in range(n)]                 # strictly ascending, max < 65536 for n < 9000
+        if rng.random() < 0.5:
+            vals[p] = vals[p - 1] - 1                          # a dip of one element
+        else:
+            vals = vals[:p] + [1 + 2 * i for i in range(n - p)]   # second ascending run starting lower
+        ops.append(f"adaptive.rt {explicit(vals)}")
     # the bitmap universe is 0..65535: dense strictly ascending arrays whose maximum is 65534 / 65535 / 65536 / 65537
     for mx in (65534, 65535, 65536, 65537, 65540):
         for n in (2, 3, 100, 1000, 4097, 9999):
@@ -1121,6 +1150,20 @@ def gen_bounded(rng, tier):
             rv += [rng.choice(pool)] * rng.choice([1, 1, 2, 7, 240, 241, 3000])
         for m in mutations(rng, py_rle_enc(rv), nmut):
             ops.append(f"b.rle hex:{m.hex()}")
+        # hand-made RLE pairs no encoder emits: run length AND value with 7/8/9-byte tags, behind 0-3 ordinary runs, cut at
+        # every length (a reader that trusts "two 64-bit varints fit in 16 bytes" over-reads by one or two bytes)
+        if len([o for o in ops if o.startswith("b.rle hex:") and len(o) > 60]) < (400 if quick else 6000):
+            pre = b"".join(bytes(tagged_enc(rng.choice([1, 2, 300]))) + bytes(tagged_enc(rng.choice([0, 5, 70000])))
+                           for _ in range(rng.randint(0, 3)))
+            for t1 in (253, 254, 255):
+                for t2 in (253, 254, 255):
+                    pair = bytes([t1]) + bytes(rng.getrandbits(8) | 1 for _ in range(t1 - 247)) + \
+                           bytes([t2]) + bytes(rng.getrandbits(8) for _ in range(t2 - 247))
+                    whole = pre + pair + bytes(tagged_enc(1)) + bytes(tagged_enc(9))
+                    for cut in range(len(pre), len(whole) + 1):
+                        if quick and cut < len(pre) + 12 and rng.random() < 0.5:
+                            continue
+                        ops.append(f"b.rle hex:{whole[:cut].hex()}")
         # Elias streams
         ev = [max(1, rng.getrandbits(rng.choice([1, 2, 7, 8, 31, 32, 33, 63, 64]))) for _ in range(min(n, 60))]
         for delta in (False, True):
